@@ -2,7 +2,6 @@
 package main
 
 import (
-
 	"mltwist/internal/exprtransform"
 	"mltwist/pkg/expr"
 	"mltwist/verifh/gen"
@@ -112,8 +111,8 @@ func one(c *mon.Case, e expr.Expr, closed bool) {
 
 func main() {
 	mon.Main(mon.Spec{
-		Prop: "C09",
-		Rule: "case = random expression tree (depth<=5, all node kinds, widths boundary-biased 1..255, mixed operand widths, gadget-shaped subtrees, nested conditionals and memory loads); non-trivial = tree with >=1 all-constant operation and >=1 free load, distinct by S-expression",
+		Prop:        "C09",
+		Rule:        "case = random expression tree (depth<=5, all node kinds, widths boundary-biased 1..255, mixed operand widths, gadget-shaped subtrees, nested conditionals and memory loads); non-trivial = tree with >=1 all-constant operation and >=1 free load, distinct by S-expression",
 		Explanation: "oracle: width equality, refir.Eval equality on 10 valuations (8 hashed + all-zero + all-ones), closed terms fold to one Const, no all-constant Binary/Less remains, ConstFold is idempotent (structural), input not mutated",
 		Assumptions: []string{"refir reference evaluator (math/big)"},
 		Cases: func(t string) int {
